@@ -119,6 +119,11 @@ type Result struct {
 	// NewState: a persist step wrote a new state record at Off.
 	NewState bool
 	Off      uint64
+	// TailAtChunkStart: (heap storage, reopen steps) after Close the
+	// shutdown marker is the first thing in a storage chunk, i.e. the final
+	// state record ended less than 8 bytes before a chunk boundary (finding
+	// C04/tail-at-chunk-start: such a database does not open, "bad state").
+	TailAtChunkStart bool
 }
 
 // call runs fn and converts a panic into (message, isRuntimeError).
@@ -286,7 +291,12 @@ func (s *Session) applyReopen(open []Action) Result {
 		return Result{Err: "reopen panicked: " + msg}
 	}
 	if err != nil {
-		return Result{Err: "reopen after clean close failed: " + err.Error()}
+		r := Result{Err: "reopen after clean close failed: " + err.Error()}
+		if h, ok := s.Opener.(heapOpener); ok {
+			r.TailAtChunkStart = old.Store.Size()%uint64(h.chunk) == 8
+		}
+		s.DB = nil
+		return r
 	}
 	db19.StartConcur(db, PersistInterval)
 	s.DB = db
